@@ -210,6 +210,24 @@ def _keep_by_instances(E, goal, hyps, s, nm):
     return True
 
 
+def _check_attr_stores(body, base, attrs):
+    for stmt in body:
+        for n in ast.walk(stmt):
+            tgts = n.targets if isinstance(n, ast.Assign) else ([n.target] if isinstance(n, ast.AugAssign) else [])
+            for t in tgts:
+                for sub in ast.walk(t):
+                    if isinstance(sub, (ast.Subscript, ast.Attribute)) and isinstance(sub.ctx, ast.Store):
+                        r = sub
+                        chain = []
+                        while isinstance(r, (ast.Subscript, ast.Attribute)):
+                            if isinstance(r, ast.Attribute):
+                                chain.append(r.attr)
+                            r = r.value
+                        if isinstance(r, ast.Name) and r.id == base:
+                            if not chain or chain[-1] not in attrs:
+                                raise Unsupported('store through %s outside the declared attributes %s' % (base, sorted(attrs)))
+
+
 def _same_binding(a, b):
     if a is b:
         return True
@@ -295,8 +313,19 @@ def exec_for(E, s):
             if name in env and name not in roots:
                 env[name] = havoc_value(E, name, env[name])
 
+        attr_roots = {r.split('.', 1)[0] for r in roots if '.' in r}
         for name in sorted(roots):
-            v = env.get(name)
+            if name in attr_roots and isinstance(env.get(name), Obj):
+                # stores through an object go to the attributes named in `mutates` ('self.models'); which attributes a
+                # store inside the body may reach is checked syntactically
+                _check_attr_stores(s.body, name, {r.split('.', 1)[1] for r in roots if r.startswith(name + '.')})
+                continue
+            if '.' in name:
+                base, attr = name.split('.', 1)
+                o = env.get(base)
+                v = o.attrs.get(attr) if isinstance(o, Obj) else None
+            else:
+                v = env.get(name)
             if isinstance(v, Arr) and getattr(v, 'lead', None) is not None:
                 # a list / array of element objects mutated in place, element by element
                 if v.ident in spec_iter.deps and not spec.get('elementwise'):
